@@ -9,7 +9,7 @@ From FB.Spec Require Import JsonSpec Prog Ref Oracle Faithful.
 From FB.Model Require Import Types Monad CreatedFiles BuildDirs SimpleOps Builder Persist Build Run Frame Core CoreOracle.
 From FB.Proofs Require Import FsLemmas JsonLaws ReplayLaws CleanLaws BuildFileLaws HashMemoInv HashMemoRun CoreLaws1 CoreLaws2 CoreLaws3
      ViewDefs ViewLemmas ViewFrame ViewInit ViewXDefs ViewXError ViewXQuery ViewXMake1 ViewXMake2 ViewXFail ViewXSetup ViewXRun
-     ViewH7 ViewR1 ViewR2 ViewR3 ViewR9 ViewK1 ViewK2 ViewK3 ViewK4 ViewK5 ViewK7 ViewK8 SimA0 SimARun SimA2Base SimA2 SimA3.
+     ViewH7 ViewR1 ViewR2 ViewR3 ViewR9 ViewK1 ViewK2 ViewK3 ViewK4 ViewK5 ViewK7 ViewK8 SimA0 SimARun SimA2Base SimA2 SimA3 SimA3Cf SimA2Finish.
 Import ListNotations.
 Open Scope list_scope.
 Open Scope m_scope.
@@ -126,16 +126,17 @@ Qed.
 
 (* ------------------------------------------------------------------ the node *)
 Section Node.
+  Variable ok : cache -> Prop.
   Hypothesis Hpre : pre_statement.
   Hypothesis Hclaim : claim_statement.
-  Hypothesis Hfin : finish_statement.
+  Hypothesis Hfin : finish_statement_cf.
   Hypothesis Hbuilt : built_statement.
-  Hypothesis Hlook : lookup_agree_hyp.
-  Hypothesis Hhit : hit_agree_hyp.
+  Hypothesis Hlook : lookup_agree_hyp_for ok.
+  Hypothesis Hhit : hit_agree_hyp_for ok.
 
-  Theorem bf_node : bf_node_statement.
+  Theorem bf_node : bf_node_statement_for ok.
   Proof.
-    intros st p c fname a kw fn T W w s tg pend w1 r o Hconds Hbody HS HC E1 s1 r' o' E2.
+    intros st p c fname a kw fn T W w s tg pend w1 r o Hokc Hconds Hbody HS HC E1 s1 r' o' E2.
     pose proof HS as [[HP HL] [HI [HK HWb]]].
     destruct Hbuilt as (Bclaim & Bpre & Blook & Breuse & Bfin & _).
     pose proof (node_HInv _ _ _ _ _ _ _ _ _ HI HK E1) as HI1.
@@ -192,7 +193,8 @@ Section Node.
     assert (Hcondsb: tgt_conds st (w_old wb) p) by (rewrite Hob; exact Hconds).
     assert (HIb: HInv wb) by (apply (fstep_brel _ _ (bf_pre_fstep _ _ _ _ Epre)); exact HI).
     assert (HKb: old_keys_ok (w_old wb)) by (rewrite Hob; exact HK).
-    pose proof (Hlook st T W wb s0 p fname sa skw wl cached HSS HIb HKb Hprogb Hcondsb El) as Hdec.
+    assert (Hokb: ok (w_old wb)) by (rewrite Hob; exact Hokc).
+    pose proof (Hlook st T W wb s0 p fname sa skw wl cached Hokb HSS HIb HKb Hprogb Hcondsb El) as Hdec.
     change (core_hit s s0 p fname sa skw) with (core_hit s0 s0 p fname sa skw) in E2.
     apply bind_inv in Et.
     destruct cached as [co|].
@@ -206,7 +208,7 @@ Section Node.
                   (forall y, inprog w2 y <-> inprog wb y) /\
                   (forall y, inprog wb y -> lookup (w_fs w2) y = lookup (w_fs wb) y) /\ w_old w2 = w_old wb).
       { intros w2 r2 Hr.
-        exact (Hhit st T W wb s0 p c fname sa skw wl co w2 r2 fnode subs' ret' rr HSS HIb HKb Hprogb Hcondsb El Eh Hr). }
+        exact (Hhit st T W wb s0 p c fname sa skw wl co w2 r2 fnode subs' ret' rr Hokb HSS HIb HKb Hprogb Hcondsb El Eh Hr). }
       destruct Et as [[wr [reused [Er Et]]]|[e [Er _]]].
       2:{ exfalso. destruct (Hreuse _ _ Er) as (o2 & T' & X & _). discriminate. }
       destruct (Hreuse _ _ Er) as (o2 & T' & X & Hrec & HS2 & Hp2 & Hf2 & Ho2). inversion X; subst reused. clear X.
@@ -258,8 +260,13 @@ Section Node.
                       w3 res subs3 s2 res' pend2 bsubs Holdt HS0 HC0 Ef Ec)
         as (T3 & W3 & HS3 & HC3 & Hfr3 & Eres & Hsubs3 & HW3 & Ho3).
       subst res'. destruct HS3 as [HS3c [HI3 [HK3 HWb3]]].
+      assert (Hpcf: p <> w_cachefile w3).
+      { rewrite (run_cf _ _ _ _ _ _ Ef).
+        rewrite <- (s3_cf _ _ _ (s4_sim _ _ _ _ (proj1 HS2))). cbn [CoreLaws3.core_start klog ks_with k_cachefile core_s0 s0].
+        unfold claim_check in Hcc. destruct (mem_path p (k_claimedF s)); [discriminate|].
+        destruct (path_eqb p (k_cachefile s)) eqn:Ecf; [discriminate|]. apply path_eqb_neq. exact Ecf. }
       destruct (Hfin st T3 W3 w3 s2 p c fname sa skw res subs3 bsubs pend2 w1 r o s3 out o3 HS3c HI3 HC3
-                       (HW3 p (eq_trans (f_equal (fun b => b || mem_path p W) (path_eqb_refl p)) eq_refl)) Hsubs3 E1 Efin)
+                       (HW3 p (eq_trans (f_equal (fun b => b || mem_path p W) (path_eqb_refl p)) eq_refl)) Hpcf Hsubs3 E1 Efin)
         as (T' & HS' & Eout & Horec & Hp' & Hf' & Ho').
       apply (Hend T' W3 out HS'); [| |exact Eout|reflexivity| | |rewrite (Bfin _ _ _ _ _ _ _ _ _ _ E1); exact HWb3].
       + intro y. rewrite Hp'. rewrite (c4_prog _ _ _ _ HC3 y), (c4_prog _ _ _ _ HC y). cbn [In].
